@@ -146,7 +146,6 @@ def to_mi(case, X, torus=None):
 
 def is_risky(case):
     o = case["opts"]
-    if o["lhs"] is None or max(o["lhs"]) == 1:
-        return False
-    s = o["stride"]
-    return (max(s) if isinstance(s, list) else s) > 1
+    # observed: aborts need image dilation > 1 together with stride > 1 or filter dilation > 1 (the twin evaluation of C04
+    # raises the filter dilation), so every case with image dilation > 1 is isolated
+    return o["lhs"] is not None and max(o["lhs"]) > 1
